@@ -527,6 +527,11 @@ class MixedLogReader(object):
                     self.requested_source_ids = None
                 else:
                     self.index = self._original_index
+                    # Locate the read position in the complete index right away (the number of entries at or before the
+                    # most recent message read): if the new criteria cannot be applied below (a time range on a log
+                    # without P1 time raises IndexError), the reader must not be left with a position that still counts in
+                    # the previous, filtered index.
+                    self.next_index_elem = int(np.searchsorted(self.index.offset, prev_offset_bytes, side='right'))
 
         # Set requested source IDs.
         if source_ids is not None:
